@@ -1596,6 +1596,29 @@ func ruleCatchUpFlushesFirst(c *Ctx, r *Reporter) {
 		}
 		return
 	}
+	// functions of pkg/wal that flush the buffered writer on every path to their normal return (helpers count)
+	flushers := FnSet{}
+	for _, g := range c.KevoFns {
+		if pkgOf(g) != "pkg/wal" || g.Parent() != nil || g == from {
+			continue
+		}
+		direct := func(x ssa.Instruction) bool {
+			cl, ok := x.(*ssa.Call)
+			return ok && staticName(cl) == "(*bufio.Writer).Flush"
+		}
+		has := false
+		AllInstrs(g, false, func(_ *ssa.Function, x ssa.Instruction) {
+			if direct(x) {
+				has = true
+			}
+		})
+		if !has {
+			continue
+		}
+		if miss, _ := MustPass(g, SuccessExits(g, true), direct); miss == nil {
+			flushers[g] = true
+		}
+	}
 	isFlush := func(x ssa.Instruction) bool {
 		call, ok := x.(*ssa.Call)
 		if !ok {
@@ -1605,7 +1628,7 @@ func ruleCatchUpFlushesFirst(c *Ctx, r *Reporter) {
 			return true
 		}
 		g := call.Call.StaticCallee()
-		return g != nil && (g == a.syncLocked || g == a.sync)
+		return g != nil && (g == a.syncLocked || g == a.sync || flushers[g])
 	}
 	// the reads: calls that reach getEntriesFromFile (directly or through a helper)
 	reach := c.ReachSet(NewFnSet(fromFile), true)
